@@ -140,7 +140,7 @@ pub fn specs() -> Vec<CheckSpec> {
             stub: NO_STUB,
             assumptions: ASSUME_BOOK,
             explanation: "refinement of the real OrderBook against a ~300 line sorted-vector matching engine; complete observation compared after every operation",
-            expected_probes: &["partial_fill_of_queue_head", "aggressor_swept_2plus_levels", "market_remainder_cancelled", "same_price_depth_3plus", "trade_passive_bid", "trade_passive_ask", "cancel_of_partially_filled", "drain_probe"],
+            expected_probes: &["partial_fill_of_queue_head", "aggressor_swept_2plus_levels", "market_remainder_cancelled", "same_price_depth_3plus", "trade_passive_bid", "trade_passive_ask", "cancel_of_partially_filled", "drain_probe", "crash_restart"],
         },
         CheckSpec {
             id: "C02",
@@ -155,7 +155,7 @@ pub fn specs() -> Vec<CheckSpec> {
             stub: NO_STUB,
             assumptions: ASSUME_BOOK,
             explanation: "invariant monitoring by independent recomputation; no reference model involved",
-            expected_probes: &["crossed_book_state", "modify_traded", "crash_restart", "trading_halt"],
+            expected_probes: &["crossed_book_state", "modify_traded", "crash_restart", "trading_halt", "book_level_trading_switch", "redundant_trading_switch"],
         },
         CheckSpec {
             id: "C03",
@@ -185,7 +185,7 @@ pub fn specs() -> Vec<CheckSpec> {
             stub: NO_STUB,
             assumptions: &["valid histories as stated in the property (clock discipline not required by C04: ties allowed only where no two orders rest at one price and time is irrelevant to the clauses checked)", "sampling, not enumeration"],
             explanation: "model-free lifecycle monitor + snapshot equality around redundant requests",
-            expected_probes: &["redundant_cancel", "redundant_place", "redundant_modify", "modify_nothing", "market_rejected_while_halted", "market_remainder_cancelled"],
+            expected_probes: &["redundant_cancel", "redundant_place", "redundant_modify", "modify_nothing", "market_rejected_while_halted", "market_remainder_cancelled", "crash_restart"],
         },
         CheckSpec {
             id: "C06",
@@ -245,7 +245,7 @@ pub fn specs() -> Vec<CheckSpec> {
             stub: NO_STUB,
             assumptions: &["valid histories as stated in the property; batch size <= step size", "at most 5 instructions per step that are not pinned by an arrival timestamp (cancels / modifies); runs whose belief set exceeds 256 states are closed as inconclusive (counted)", "sampling, not enumeration"],
             explanation: "schedule-belief-set oracle: some permutation of the submitted batch, each instruction processed exactly once at time start+i, must reproduce the complete observation",
-            expected_probes: &["steered_schedule", "steering_hit", "non_identity_schedule", "step_with_trades", "plain_book_replays", "trading_halt", "batch_equals_step_size"],
+            expected_probes: &["steered_schedule", "steering_hit", "non_identity_schedule", "step_with_trades", "plain_book_replays", "trading_halt", "batch_equals_step_size", "large_batch_step", "run_of_1024_plus_steps"],
         },
         CheckSpec {
             id: "C09",
@@ -275,7 +275,7 @@ pub fn specs() -> Vec<CheckSpec> {
             stub: NO_STUB,
             assumptions: &["valid histories as stated in the property", "sampling, not enumeration"],
             explanation: "model-free snapshot comparison around every submission",
-            expected_probes: &["steps", "trading_halt"],
+            expected_probes: &["steps", "trading_halt", "large_batch_step", "large_batch_step_over_4096", "step_overflow_batch_gt_step_size", "sparse_submission"],
         },
         CheckSpec {
             id: "C11",
@@ -290,7 +290,7 @@ pub fn specs() -> Vec<CheckSpec> {
             stub: NO_STUB,
             assumptions: &["valid histories as stated in the property; level counts 1,2,3,5,10,16,24 (Env) and 1,3,10 (MarketEnv) are the compiled instantiations", "sampling, not enumeration"],
             explanation: "model-free comparison of recorded series with the live book after every step",
-            expected_probes: &["asymmetric_book_recorded", "level_beyond_first_populated", "deepest_level_populated", "step_with_traded_volume_recorded"],
+            expected_probes: &["asymmetric_book_recorded", "level_beyond_first_populated", "deepest_level_populated", "step_with_traded_volume_recorded", "large_batch_step", "run_of_1024_plus_steps", "run_traded_volume_over_2_32"],
         },
         CheckSpec {
             id: "C12",
@@ -305,7 +305,7 @@ pub fn specs() -> Vec<CheckSpec> {
             stub: NO_STUB,
             assumptions: ASSUME_BOOK,
             explanation: "fault injection of invalid requests with full-snapshot comparison around each",
-            expected_probes: &["offgrid_create_request", "offgrid_reprice_request"],
+            expected_probes: &["offgrid_create_request", "offgrid_reprice_request", "crash_restart"],
         },
         CheckSpec {
             id: "C13",
@@ -320,7 +320,7 @@ pub fn specs() -> Vec<CheckSpec> {
             stub: NO_STUB,
             assumptions: ASSUME_BOOK,
             explanation: "partition/heal style fault (halt/resume) against the reference engine",
-            expected_probes: &["trading_halt", "trading_resume", "market_rejected_while_halted", "crossed_book_state"],
+            expected_probes: &["trading_halt", "trading_resume", "market_rejected_while_halted", "crossed_book_state", "book_level_trading_switch", "redundant_trading_switch", "crash_restart"],
         },
         CheckSpec {
             id: "C14",
@@ -335,7 +335,7 @@ pub fn specs() -> Vec<CheckSpec> {
             stub: NO_STUB,
             assumptions: &["valid histories as stated in the property", "sampling, not enumeration"],
             explanation: "lock-step twins: the multi-asset object against independent single-asset books",
-            expected_probes: &["op_with_trades", "plain_book_replays", "step_with_trades"],
+            expected_probes: &["op_with_trades", "plain_book_replays", "step_with_trades", "large_batch_step", "book_level_trading_switch"],
         },
         CheckSpec {
             id: "C15",
@@ -350,7 +350,7 @@ pub fn specs() -> Vec<CheckSpec> {
             stub: NO_STUB,
             assumptions: &["power is finite: at n=6 only gross per-permutation bias is detectable at the quick budget; marginal tables are much sharper", "fresh generator per step and consecutive steps on one generator are both sampled"],
             explanation: "seeded search over schedules: counts of inferred permutations against exact concentration bounds",
-            expected_probes: &["content_independence_checked", "fresh_seed_steps", "consecutive_steps_one_generator"],
+            expected_probes: &["content_independence_checked", "fresh_seed_steps", "consecutive_steps_one_generator", "large_batch_statistics"],
         },
         CheckSpec {
             id: "C16",
@@ -380,7 +380,7 @@ pub fn specs() -> Vec<CheckSpec> {
             stub: NO_STUB,
             assumptions: &["the harness's recurrence for M is the documented one, evaluated in the same floating-point order", "sampling, not enumeration"],
             explanation: "differential oracle (documented rule at saturation) + mirrored-run symmetry",
-            expected_probes: &["step_M_positive", "step_M_negative", "step_M_zero", "saturated_step", "saturated_limit_step", "mirrored_run"],
+            expected_probes: &["step_M_positive", "step_M_negative", "step_M_zero", "saturated_step", "saturated_limit_step", "mirrored_run", "mirrored_step_with_limit_orders", "quotes_moved_by_modify"],
         },
         CheckSpec {
             id: "C18",
